@@ -196,6 +196,16 @@ func (c *Conn) SendOneFrame(b []byte) error {
 	return c.WriteRaw(c.wr.SealFrame(b))
 }
 
+// SealEmptyFrame returns one correctly sealed frame without content at the connection's next counter (nil when the
+// connection is not secure); the caller writes it with WriteRaw.
+func (c *Conn) SealEmptyFrame() []byte {
+	if !c.secure {
+		return nil
+	}
+	c.FramesOut++
+	return c.wr.SealFrame(nil)
+}
+
 // BuildRequest renders an HTTP/1.1 request as HAP controllers send it.
 func BuildRequest(method, target, contentType string, body []byte) []byte {
 	var b bytes.Buffer
